@@ -272,19 +272,36 @@ class Check:
                 except ValueError:
                     pass
             found = False
-            for i in sorted(suspects - set(crashed)):
-                q, _ = self._go_once(pkg, test, cases, ov, timeout, env, outname + ".one", idx={i})
-                if q.returncode != 0 and "panic:" in q.stdout and crash_pkg in q.stdout:
-                    m = re.search(r"panic: (.*)", q.stdout)
-                    where = [ln.strip() for ln in q.stdout.splitlines() if crash_pkg in ln and "(" in ln][:3]
-                    crashed[i] = (m.group(1)[:200] if m else "panic") + " @ " + " <- ".join(where)
-                    found = True
+            hang = "panic: verif watchdog" in p.stdout
+
+            def single(i):
+                return i, self._go_once(pkg, test, cases, ov, timeout, env, "%s.one%d" % (outname, i), idx={i})[0]
+            with cf.ThreadPoolExecutor(max_workers=8) as ex:
+                for i, q in ex.map(single, sorted(suspects - set(crashed))):
+                    if q.returncode != 0 and "panic:" in q.stdout and crash_pkg in q.stdout:
+                        m = re.search(r"panic: (.*)", q.stdout)
+                        where = [ln.strip() for ln in q.stdout.splitlines() if crash_pkg in ln and "(" in ln and "vtrace" not in ln and "zz_verif" not in ln][:3]
+                        crashed[i] = (m.group(1)[:200] if m else "panic") + " @ " + " <- ".join(where)
+                        found = True
+            for d in glob.glob(os.path.join(self.work, outname + ".one*")):
+                shutil.rmtree(d, ignore_errors=True) if os.path.isdir(d) else os.remove(d)
             if not found:
                 break
             log("[%s] the harness process crashed; cases that crash on their own: %s" % (self.pid, sorted(crashed)))
+            if hang and rounds >= 2:
+                break   # every further round costs the watchdog period several times over; two rounds of reproduced hangs are a verdict
             p, out = self._go_once(pkg, test, cases, ov, timeout, env, outname, idx=set(range(len(cases))) - set(crashed))
         wall = time.time() - t0
-        if p.returncode != 0 or not re.search(r"^ok\s", p.stdout, re.M):
+        if (p.returncode != 0 or not re.search(r"^ok\s", p.stdout, re.M)) and crashed:
+            # a storm: more cases kill the process than are localised in four rounds.  Those reproduced one by one are
+            # observations of the real code and are judged; nothing else of this run is (partial run: no liveness check,
+            # no negative control; without a verdict from the crashes it ends as a machinery failure)
+            log("[%s] the harness process keeps crashing after %d case(s) were localised: judging those, the rest of the run is void" % (self.pid, len(crashed)))
+            self.partial = True
+            self.unvalidated = getattr(self, "unvalidated", 0) + 1
+            for fn in glob.glob(os.path.join(out, "*")):
+                os.remove(fn)
+        elif p.returncode != 0 or not re.search(r"^ok\s", p.stdout, re.M):
             self.fail_machinery("go harness %s %s failed (rc=%d):\n%s" % (pkg, test, p.returncode, p.stdout[-6000:]))
         for i, msg in crashed.items():   # a process-killing panic of the code under test is an observation: a trace of its own
             g = cases[i].get("group", "crash")
@@ -452,6 +469,8 @@ class Check:
     # -- negative control: a corrupted copy of a recorded trace must be rejected
     def negative_control(self, trace_tla, files, constants, invariants, mutate, defs="", label="", tries=40, dfs=False):
         """mutate(lines:list[dict], rng) -> (new_lines, description) or None if not applicable to this case."""
+        if getattr(self, "partial", False):
+            return
         rng = random.Random(self.seed * 7919 + 13)
         fl = list(files)
         rng.shuffle(fl)
@@ -487,7 +506,7 @@ class Check:
 
     # -- driver liveness
     def require_events(self, kinds):
-        if os.environ.get("VERIF_ONLY"):
+        if os.environ.get("VERIF_ONLY") or getattr(self, "partial", False):
             return
         missing = [k for k in kinds if self.stats.get(k, 0) == 0]
         if missing:
@@ -564,7 +583,7 @@ class Check:
             json.dump(ev, f, indent=1)
         for ln in outlines:
             print(ln, flush=True)
-        if not self.violations and getattr(self, "unvalidated", 0) and not os.environ.get("VERIF_MAXITER"):
+        if not self.violations and getattr(self, "unvalidated", 0) and (getattr(self, "partial", False) or not os.environ.get("VERIF_MAXITER")):
             self.fail_machinery("%d shard(s) held more offending cases than are excised one by one: the rest of them was not validated" % self.unvalidated)
         if not self.keep_work:
             shutil.rmtree(self.work, ignore_errors=True)
